@@ -34,7 +34,9 @@ def tick(*roots):
                 newest = max(newest, os.lstat(dp).st_mtime_ns)
             except OSError:
                 pass
-    probe = os.path.join(roots[0], '..', '.tick_probe')
+    import threading
+    probe = os.path.join(roots[0], '..', '.tick_probe.%d.%d' % (
+        os.getpid(), threading.get_ident()))
     while True:
         with open(probe, 'w'):
             pass
